@@ -8,6 +8,10 @@ tree    := "-" | entry (";" entry)*
 entry   := path ":" content          regular file
          | path "/"                  directory (needed only for empty ones: parents are implied)
 content := "-" | hex | "~" len "." seed        (pattern: byte i = (seed + 7·i + 13·(i / 256)) mod 256)
+         | "^" len "." seed "." bits      (noise: 32-bit LCG `s ← 1664525·s + 1013904223` started at
+                                           `(seed + 1)·2654435761`; byte i = top `bits` (1..8) bits of the
+                                           state after i + 1 steps — content deflate cannot shrink below
+                                           `bits/8` of its length)
 ```
 Canonical output: entries sorted by the bytes of the `/`-joined path; a content longer than 32
 bytes is printed as `h<len>.<fnv1a-64 of the bytes, 16 hex digits>`.
@@ -18,8 +22,26 @@ open Physis Physis.Fs
 def pattern (len seed : Nat) : Bytes :=
   (List.range len).map fun i => UInt8.ofNat (seed + 7 * i + 13 * (i / 256))
 
+/-- pseudo-random content, see the grammar above (tail recursive: contents reach 1 MiB) -/
+def noise (len seed bits : Nat) : Bytes :=
+  let sh : UInt8 := UInt8.ofNat (8 - bits)
+  let rec go : Nat → UInt32 → Array UInt8 → Array UInt8
+    | 0, _, acc => acc
+    | n + 1, s, acc =>
+      let s' := s * 1664525 + 1013904223
+      go n s' (acc.push ((s' >>> 24).toUInt8 >>> sh))
+  (go len ((UInt32.ofNat seed + 1) * 2654435761) (Array.mkEmpty len)).toList
+
 def parseContent (s : String) : Option Bytes :=
-  if s.startsWith "~" then
+  if s.startsWith "^" then
+    match (s.drop 1).toString.splitOn "." with
+    | [a, b, c] => do
+      let len ← a.toNat?
+      let seed ← b.toNat?
+      let bits ← c.toNat?
+      if 1 ≤ bits ∧ bits ≤ 8 then pure (noise len seed bits) else none
+    | _ => none
+  else if s.startsWith "~" then
     match (s.drop 1).toString.splitOn "." with
     | [a, b] => do
       let len ← a.toNat?
